@@ -120,6 +120,37 @@ def _same_obs(a, b):
     return a == b
 
 
+def _is_event_log(t):
+    return isinstance(t, (list, tuple)) and t and all(
+        isinstance(e, (list, tuple)) and len(e) == 5 and isinstance(e[0], str) and isinstance(e[3], (int, float, Fraction)) for e in t)
+
+
+def _same_trace(a, b):
+    """observation logs agree; events of one step at (numerically) the same instant may come in either
+    order: exact ties of timer due times in the symbolic run are not ties in float arithmetic"""
+    if _same_obs(a, b):
+        return True
+    if not (_is_event_log(a) and _is_event_log(b)) or len(a) != len(b):
+        return False
+
+    def key(e):
+        return (e[2], round(float(e[3]), 6), e[0], e[1], repr(_norm(e[4])))
+
+    def _norm(x):
+        if isinstance(x, (list, tuple)):
+            return [_norm(y) for y in x]
+        if isinstance(x, (bytes, bytearray)):
+            return bytes(x)
+        if isinstance(x, Fraction):
+            return round(float(x), 6)
+        if isinstance(x, float):
+            return round(x, 6)
+        if isinstance(x, bool):
+            return int(x)
+        return x
+    return sorted(key(e) for e in a) == sorted(key(e) for e in b)
+
+
 def run_shard(job):
     pid, hname, params, opts = job
     import faulthandler
@@ -157,7 +188,7 @@ def run_shard(job):
             if fails:
                 state['xre_bad'].append({'why': 'concrete run fails a check the solver discharged: %r' % (fails[:2],),
                                          'inputs': [(k, _enc(v)) for k, v in inputs], 'choices': list(e.choices)})
-            elif not _same_obs(sym_obs, ctrace):
+            elif not _same_trace(sym_obs, ctrace):
                 state['xre_bad'].append({'why': 'observation logs differ', 'sym': repr(sym_obs)[:2000], 'conc': repr(ctrace)[:2000],
                                          'inputs': [(k, _enc(v)) for k, v in inputs], 'choices': list(e.choices)})
 
